@@ -35,8 +35,8 @@ int main(int argc, char** argv)
         catch (const std::exception& e) { if (!bad) first = std::string(e.what()) + " for empty-field mask " + std::to_string(mask); ++bad; }
     }
     // the input ends inside, right after, or some blanks after a quoted field, with and without a header: an error (missing closing quote) or the same value as with a final line break (F41, F50)
-    for (const char* body : {"\"x\"", "\"x\" ", "\"x\"\t ", "1,\"x\" ", "\"q\nr\" "}) for (int hdr = 0; hdr < 2; ++hdr) { ++total;
-        std::string t1 = std::string("a,b\n") + body, t2 = t1 + "\n"; auto o = csv::csv_options{}.assume_header(hdr != 0);
+    for (const char* body : {"\"x\"", "\"x\" ", "\"x\"\t ", "1,\"x\" ", "\"q\nr\" ", "1;\"x\"", "\"1\";\"x\"", "1;\"x\" "}) for (int hdr = 0; hdr < 2; ++hdr) { ++total;
+        std::string t1 = std::string("a,b\n") + body, t2 = t1 + "\n"; auto o = csv::csv_options{}.assume_header(hdr != 0); if (strchr(body, ';')) o.subfield_delimiter(';');
         try { json j1 = csv::decode_csv<json>(t1, o), j2 = csv::decode_csv<json>(t2, o); if (j1 != j2) { if (!bad) first = "the text ending in " + std::string(body) + " without a final line break decodes to " + j1.to_string() + ", with one to " + j2.to_string(); ++bad; } }
         catch (const jsoncons::json_exception& e) { if (!bad) first = std::string("a complete quoted field at the end of the input is refused: ") + e.what(); ++bad; }
         catch (const std::exception& e) { if (!bad) first = std::string("foreign exception for a quoted field at the end of the input: ") + e.what(); ++bad; } }
